@@ -11,7 +11,7 @@ NOT_APPLICABLE = {
     "C04": "statistical claim (expected FDP over a distribution of datasets under exchangeability): not expressible "
            "as a single-run function contract; its structural premises are decided under C01/C02/C03 (DESIGN.md 5)",
 }
-for _p in ["C02", "C03", "C08", "C14", "C15", "C16", "C18", "C20"]:
+for _p in ["C02", "C03", "C08", "C15", "C16", "C18", "C20"]:
     NOT_APPLICABLE[_p] = _PENDING
 
 CHECKS = {
@@ -183,5 +183,23 @@ CHECKS = {
                 "temporary-file discovery and cleanup in confidence.py are bounded-only",
         "technique": "block contract with ghost file-system state on the real CLI code; z3/cvc5; fault-injection "
                      "histories as bounded stand-in",
+    },
+    "C14": {
+        "category": "other",
+        "text": "Deductive core + bounded stand-in. Proved for all inputs (unbounded), over row streams with ghost "
+                "cursors: get_next_row - returns a current row of maximal score, advances exactly that stream or "
+                "removes it from both dictionaries when exhausted, everything else untouched, coupling "
+                "re-established; merge_sort main loop (block contract) - with a ghost emission log (source, "
+                "position, inverse map) every row of every input stream is yielded EXACTLY ONCE and unmodified, "
+                "and the output is globally non-increasing in score, for any number of streams, lengths and ties. "
+                "The two dict comprehensions that open the readers and fetch the first rows are not modelled (they "
+                "establish the coupling the loop assumes). The table merger (MergedTabularDataReader), its "
+                "rejection of unsorted input, file formats and reader chunk sizes are decided by the bounded run.",
+        "design_ref": "DESIGN.md 4.C14",
+        "note": "iterator protocol as ghost cursor over a fixed row sequence; distinct keys hold distinct iterators; "
+                "float(row[col]) a function of the row; inputs sorted non-increasing (the property's precondition)",
+        "technique": "sidecar contracts with ghost state (cursor map, emission log and its inverse), modular call, "
+                     "loop invariant with stepping-stone assertions; z3/cvc5; exhaustive small merges as bounded "
+                     "stand-in",
     },
 }
